@@ -122,7 +122,41 @@ def _local_names(fn: ast.FunctionDef):
     return sorted(assigned - params - nested_used - banned)
 
 
-def alpha_rename(func: str, suffix="_rn"):
+def _deep_local_names(fn: ast.FunctionDef):
+    """Locals of fn that may be renamed everywhere inside fn, nested scopes included: assigned in fn's own scope, not a parameter,
+    not the name of a nested def/class, not global/nonlocal, and not re-bound (parameter / assignment / loop target) by any nested scope."""
+    params = {a.arg for a in fn.args.posonlyargs + fn.args.args + fn.args.kwonlyargs}
+    if fn.args.vararg:
+        params.add(fn.args.vararg.arg)
+    if fn.args.kwarg:
+        params.add(fn.args.kwarg.arg)
+    own, banned, nested_bound = set(), set(), set()
+
+    def walk(n):
+        for ch in ast.iter_child_nodes(n):
+            if isinstance(ch, (ast.FunctionDef, ast.Lambda, ast.ClassDef, ast.ListComp, ast.SetComp, ast.DictComp, ast.GeneratorExp)):
+                if isinstance(ch, (ast.FunctionDef, ast.ClassDef)):
+                    banned.add(ch.name)
+                for w in ast.walk(ch):
+                    if isinstance(w, ast.arg):
+                        nested_bound.add(w.arg)
+                    if isinstance(w, ast.Name) and isinstance(w.ctx, ast.Store):
+                        nested_bound.add(w.id)
+                    if isinstance(w, (ast.FunctionDef, ast.ClassDef)):
+                        banned.add(w.name)
+                    if isinstance(w, (ast.Global, ast.Nonlocal)):
+                        banned.update(w.names)
+                continue
+            if isinstance(ch, (ast.Global, ast.Nonlocal)):
+                banned.update(ch.names)
+            if isinstance(ch, ast.Name) and isinstance(ch.ctx, ast.Store):
+                own.add(ch.id)
+            walk(ch)
+    walk(fn)
+    return sorted(own - params - banned - nested_bound)
+
+
+def alpha_rename(func: str, suffix="_rn", deep=False):
     """Preserving edit: rename every safely renamable local of function `func` (a dotted path through classes and
     enclosing functions, e.g. `Class.method` or `outer.inner`; a bare name is a top-level function)."""
     path = func.split(".")
@@ -146,7 +180,7 @@ def alpha_rename(func: str, suffix="_rn"):
         if not hit:
             return None
         body, st = hit
-        names = _local_names(st)
+        names = _deep_local_names(st) if deep else _local_names(st)
         if not names:
             return None
         mapping = {n: n + suffix for n in names}
@@ -234,6 +268,7 @@ def run_selftest(prop, mod, base_ctx, seed):
             continue
         have.add(nm)
         variants.append(Variant(nm, os.path.relpath(m.path, base_ctx.repo.root), alpha_rename(fpath), None))
+        variants.append(Variant(nm.replace("auto alpha", "auto deep alpha"), os.path.relpath(m.path, base_ctx.repo.root), alpha_rename(fpath, suffix="_dr", deep=True), None))
     base_ref, base_und = _summ(base_ctx)
     jobs = []
     skipped = []
